@@ -355,12 +355,33 @@ impl Workload {
     ///
     /// By minimizing dependencies we allow jobs to start earlier and execute with greater concurrency.
     fn update_be_glyph_work(&mut self, fe_root: &FeContext, glyph_name: GlyphName) {
+        let be_id = AnyWorkId::Be(BeWorkIdentifier::GlyfFragment(glyph_name.clone()));
+
+        // If the inputs to the BE glyph didn't change it won't be pending.
+        // Only jobs that are still hard blocked need refinement.
+        match self.jobs_pending.get(&be_id) {
+            Some(be_job) if be_job.read_access == AnyAccess::Be(Access::Unknown) => (),
+            _ => return,
+        }
+
+        // The glyph order job rewrites glyph IR (flatten, decompose, ...) and becomes runnable as soon
+        // as the last IR glyph job has *finished*, which can be before we get to handle that job's
+        // success here. While glyph order is in flight the glyph we would read may or may not have been
+        // rewritten yet, so dependencies computed from it can miss glyph order itself. Leave the job
+        // blocked; success of glyph order revisits every BE glyph job that is still blocked.
+        let glyph_order_id = AnyWorkId::Fe(FeWorkIdentifier::GlyphOrder);
+        let glyph_order_in_flight = self
+            .jobs_pending
+            .get(&glyph_order_id)
+            .is_some_and(|job| job.running);
+        if glyph_order_in_flight {
+            trace!("Deferring update of {be_id:?} until glyph order completes");
+            return;
+        }
+
         let glyph = fe_root
             .glyphs
-            .get(&FeWorkIdentifier::Glyph(glyph_name.clone()));
-        let be_id = AnyWorkId::Be(BeWorkIdentifier::GlyfFragment(glyph_name));
-
-        // If the inputs to the BE glyph didn't change it won't be pending
+            .get(&FeWorkIdentifier::Glyph(glyph_name));
         let Some(be_job) = self.jobs_pending.get_mut(&be_id) else {
             return;
         };
@@ -445,6 +466,25 @@ impl Workload {
 
                 // Glyph order is done so all IR must be done. Copy dependencies from the IR for the same name.
                 self.update_be_glyph_work(fe_root, glyph_name.clone());
+            }
+
+            // Glyph order is done so glyph IR is final: refine the BE glyph jobs whose refinement
+            // was deferred because their IR job's success was handled while glyph order was in flight
+            let mut deferred: Vec<GlyphName> = self
+                .jobs_pending
+                .iter()
+                .filter_map(|(id, job)| match id {
+                    AnyWorkId::Be(BeWorkIdentifier::GlyfFragment(name))
+                        if job.read_access == AnyAccess::Be(Access::Unknown) =>
+                    {
+                        Some(name.clone())
+                    }
+                    _ => None,
+                })
+                .collect();
+            deferred.sort();
+            for glyph_name in deferred {
+                self.update_be_glyph_work(fe_root, glyph_name);
             }
 
             // Now that we have a final glyph order we can resolve the Access::Unknown for glyf/loca
